@@ -46,6 +46,9 @@ def chains(depth):
     # a wide ordered marker ("10. ", prefix width 4) alone and next to each other container
     for c in ('w', 'wq', 'wb', 'qw', 'bw', 'ww'):
         yield c
+    # 'n': the paragraph is the SECOND item ("10. ") of an ordered list whose first item ("9. ab") has a narrower marker
+    for c in ('n', 'qn', 'nq', 'bn', 'nb'):
+        yield c
 
 
 def jobs(tier):
@@ -69,6 +72,9 @@ def embed(lines, chain):
         if c == 'q':
             lines = ['> ' + l if l else '>' for l in lines]
             prefixes = ['> ' + p for p in prefixes]
+        elif c == 'n':
+            lines = ['9. ab'] + [('10. ' if i == 0 else '    ') + l if l else l for i, l in enumerate(lines)]
+            prefixes = [''] + [('10. ' if i == 0 else '    ') + p for i, p in enumerate(prefixes)]
         else:
             m = '- ' if c == 'b' else ('10. ' if c == 'w' else '1. ')
             lines = [(m if i == 0 else ' ' * len(m)) + l if l else l for i, l in enumerate(lines)]
@@ -241,7 +247,7 @@ def run_job(job):
     for L in range(k + 1, ksub + 1):
         seqs += list(itertools.product(SUB, repeat=L))
     for items in seqs:
-        wheres = ['before'] + (['inside'] if by and chain else []) if by else [None]
+        wheres = ['before'] + (['inside'] if by and chain and 'n' not in chain else []) if by else [None]
         for where in wheres:
             m, by_lines = build_doc(items, chain, by, where or 'before')
             r.states += 1
